@@ -5,9 +5,14 @@ import z3
 
 SOLVERS = {
     'cvc5': ['cvc5', '--lang', 'smt2', '--produce-models'],
+    'cvc5_di': ['cvc5', '--lang', 'smt2', '--produce-models', '--decision=internal'],
     'z3new': ['z3-new', '-smt2'],
+    'z3new_a2': ['z3-new', '-smt2', 'smt.arith.solver=2'],      # the legacy simplex core: often decisive where the default stalls
     'z3': ['/usr/bin/z3', '-smt2'],
+    'z3_a2': ['/usr/bin/z3', '-smt2', 'smt.arith.solver=2'],
 }
+PORTFOLIO = ('cvc5', 'z3new_a2', 'z3new', 'cvc5_di')
+PORTFOLIO_CROSS = ('cvc5', 'z3new_a2', 'z3new', 'cvc5_di', 'z3')
 MEM_LIMIT = int(os.environ.get('VERIF_SOLVER_MEM_GB', '10')) * (1 << 30)
 
 def to_smt2(constraints, get_values=None):
@@ -37,7 +42,7 @@ def _classify(out):
     if first == 'unknown': return 'unknown'
     return 'error'
 
-def race(smt_path, timeout, solvers=('cvc5', 'z3new', 'z3'), need_all=False):
+def race(smt_path, timeout, solvers=PORTFOLIO, need_all=False):
     """run the solvers in parallel on one file. need_all: wait for every solver (cross-check) instead of first answer."""
     procs = {}
     t0 = time.time()
@@ -49,7 +54,8 @@ def race(smt_path, timeout, solvers=('cvc5', 'z3new', 'z3'), need_all=False):
             pass
     answers = {}
     pending = dict(procs)
-    winner = None
+    winner = None; t_first = None
+    def family(n): return 'cvc5' if n.startswith('cvc5') else 'z3'
     while pending and time.time() - t0 < timeout:
         for name, p in list(pending.items()):
             rc = p.poll()
@@ -59,8 +65,12 @@ def race(smt_path, timeout, solvers=('cvc5', 'z3new', 'z3'), need_all=False):
                 answers[name] = (cls, time.time() - t0, out[:300])
                 del pending[name]
                 if cls in ('sat', 'unsat') and winner is None:
-                    winner = name
+                    winner = name; t_first = time.time() - t0
         if winner and not need_all: break
+        if winner and need_all:
+            fams = {family(n) for n, a in answers.items() if a[0] in ('sat', 'unsat')}
+            # cross-check: a definite answer from a second solver family, waited for up to 3x the first answer + 30 s
+            if len(fams) >= 2 or time.time() - t0 > 3 * t_first + 30: break
         time.sleep(0.01)
     for name, p in pending.items():
         try: os.killpg(p.pid, signal.SIGKILL)
@@ -72,7 +82,8 @@ def race(smt_path, timeout, solvers=('cvc5', 'z3new', 'z3'), need_all=False):
     if len(set(definite.values())) > 1:
         return Result('disagree', ','.join(definite), time.time() - t0, str(answers), all_answers=answers)
     if winner:
-        return Result(answers[winner][0], winner, answers[winner][1], all_answers=answers)
+        fams = {family(n) for n, a in answers.items() if a[0] in ('sat', 'unsat')}
+        return Result(answers[winner][0], winner, answers[winner][1], detail=('cross-checked by a second solver family' if len(fams) >= 2 else 'single solver family'), all_answers=answers)
     return Result('inconclusive', None, time.time() - t0, str({n: (a[0], a[2][:120]) for n, a in answers.items()}), all_answers=answers)
 
 def get_model(smt_text, names, solver, timeout):
@@ -80,7 +91,7 @@ def get_model(smt_text, names, solver, timeout):
     with tempfile.NamedTemporaryFile('w', suffix='.smt2', delete=False) as f:
         f.write(smt_text + '(get-value (%s))\n' % ' '.join(names)); path = f.name
     try:
-        order = [solver] + [s for s in ('z3new', 'cvc5', 'z3') if s != solver]
+        order = [solver] + [s for s in ('z3new_a2', 'z3new', 'cvc5', 'z3') if s != solver]
         for sv in order:
             try:
                 p = subprocess.run(SOLVERS[sv] + [path], stdout=subprocess.PIPE, stderr=subprocess.STDOUT, text=True, timeout=timeout, preexec_fn=_limits)
